@@ -3195,8 +3195,10 @@ static int run_delete (hawk_rtx_t* rtx, hawk_nde_delete_t* nde)
 	{
 		case HAWK_VAL_NIL:
 			/* value not set. create a map and assign it to the variable */
-			if (HAWK_UNLIKELY(assign_newmapval_to_var(rtx, var) == HAWK_NULL)) goto oops;
-			break;
+			val = assign_newmapval_to_var(rtx, var);
+			if (HAWK_UNLIKELY(!val)) goto oops;
+			/* fall through. the subscripts must still be evaluated as they
+			 * can have side effects - delete a[i++]; delete a[b[1]]; */
 
 		case HAWK_VAL_MAP:
 			if (var->type == HAWK_NDE_NAMEDIDX || var->type == HAWK_NDE_GBLIDX ||
